@@ -87,3 +87,5 @@ pub open spec fn get_lookup(vm: &Vm, receiver: Value, name: LyStr) -> Option<Val
 }
 
 pub open spec fn set_top(s: Seq<Value>, i: int, v: Value) -> Seq<Value> { s.update(s.len() - 1 - i, v) }
+
+pub open spec fn is_box(v: Value) -> bool { v_is_obj(v) && o_kind(v_obj(v)) == ObjectKind::LyBox }
